@@ -31,6 +31,7 @@ type concScenario struct {
 	LocalSeq uint64
 	Supis    []string
 	Cgf      bool // CDR transfer to the (modelled) billing domain enabled
+	RaceOnly bool // too many concurrent requests for the explorer's bound: free-running pass only
 }
 
 func usageOp(k string, s int, rg int32, req int32, used int32, tag int32, trig ...string) Op {
@@ -78,6 +79,43 @@ func concScenarios() []concScenario {
 		{Name: "cgf/create-update-same-subscriber", Accounts: one, Cgf: true, Pre: []Op{crA1, upd0}, Conc: []Op{crA2, usageOp("update", 0, 1, 100, 60, 600)}},
 		// ... after the billing domain has closed the connection: the first request that notices logs in again
 		{Name: "cgf/update-update-after-connection-loss", Accounts: one, Cgf: true, Pre: []Op{crA1, crB, upd0, usageOp("update", 1, 1, 70, 0, 501), {K: "cgf-drop"}}, Conc: []Op{usageOp("update", 0, 1, 100, 100, 600), usageOp("update", 1, 1, 30, 70, 601)}},
+		// four subscribers closing a partial record at the same time (free-running pass only)
+		func() concScenario {
+			sc := concScenario{Name: "partial-record-four-subscribers", RaceOnly: true, Supis: []string{supiA, supiB, "imsi-208930000000003", "imsi-208930000000004"}}
+			for u, s := range sc.Supis {
+				sc.Accounts = append(sc.Accounts, Account{s, 1, "1000", "1"})
+				c := mkCreate(u, "smf1")
+				c.CID = int32(20 + u)
+				sc.Pre = append(sc.Pre, c)
+				sc.Conc = append(sc.Conc, usageOp("update", u, 1, 50, 0, int32(600+u), "VOLIMM"))
+			}
+			return sc
+		}(),
+		func() concScenario {
+			sc := concScenario{Name: "create-four-subscribers", RaceOnly: true, Supis: []string{supiA, supiB, "imsi-208930000000003", "imsi-208930000000004"}}
+			for u, s := range sc.Supis {
+				sc.Accounts = append(sc.Accounts, Account{s, 1, "1000", "1"})
+				c := mkCreate(u, "smf1")
+				c.CID = int32(20 + u)
+				sc.Conc = append(sc.Conc, c)
+			}
+			return sc
+		}(),
+		func() concScenario {
+			sc := concScenario{Name: "update-release-four-subscribers", RaceOnly: true, Cgf: true, Supis: []string{supiA, supiB, "imsi-208930000000003", "imsi-208930000000004"}}
+			for u, s := range sc.Supis {
+				sc.Accounts = append(sc.Accounts, Account{s, 1, "1000", "1"})
+				c := mkCreate(u, "smf1")
+				c.CID = int32(20 + u)
+				sc.Pre = append(sc.Pre, c)
+				if u%2 == 0 {
+					sc.Conc = append(sc.Conc, usageOp("update", u, 1, 50, 0, int32(600+u)))
+				} else {
+					sc.Conc = append(sc.Conc, usageOp("release", u, 1, -1, 0, int32(600+u), "FINAL"))
+				}
+			}
+			return sc
+		}(),
 		{Name: "update-update-recharge", Accounts: []Account{{supiA, 1, "150", "2"}}, Pre: []Op{crA1, crA2, usageOp("update", 0, 1, 100, 0, 500)}, Conc: []Op{usageOp("update", 0, 1, 100, 75, 600), usageOp("update", 1, 1, 20, 0, 601), {K: "recharge", U: 0, RG: 1, Amt: 400}}},
 	}
 }
@@ -336,6 +374,9 @@ func (w *World) execMore(supis []string, h *HistRun, ops []Op) []Step {
 func init() {
 	for _, sc := range concScenarios() {
 		sc := sc
+		if sc.RaceOnly {
+			continue
+		}
 		schedScenarios["c09-"+sc.Name] = concScenarioFn(sc, nil)
 		for _, perm := range permutationsInt(len(sc.Conc)) {
 			schedScenarios["c09-"+sc.Name+"#"+permKey(perm)] = concScenarioFn(sc, perm)
@@ -394,7 +435,7 @@ func runConc(t *testing.T, rep *Report, pool *Pool, names []string) []map[string
 		bound, capExecs = 3, 60000
 	}
 	for _, sc := range concScenarios() {
-		if names != nil && !containsStr(names, sc.Name) {
+		if (names != nil && !containsStr(names, sc.Name)) || sc.RaceOnly {
 			continue
 		}
 		b := bound
